@@ -59,12 +59,23 @@ def parse(text):
         if m:
             g["edges"].append((unq(m.group(1)), unq(m.group(2)), attrs(m.group(3))))
             continue
+        m = re.match(r"^(%s)\s*->\s*(%s)\s*;$" % (_ID, _ID), ln)   # an edge without an attribute list
+        if m:
+            g["edges"].append((unq(m.group(1)), unq(m.group(2)), {}))
+            continue
         m = re.match(r"^(%s)\s*\[(.*)\];$" % _ID, ln)
         if m:
             nid = unq(m.group(1))
             if nid in g["nodes"]:
                 g["dup_nodes"].append(nid)
             g["nodes"][nid] = (cur, attrs(m.group(2)))
+            continue
+        m = re.match(r"^(%s)\s*;$" % _ID, ln)   # a node without an attribute list
+        if m and "=" not in ln:
+            nid = unq(m.group(1))
+            if nid in g["nodes"]:
+                g["dup_nodes"].append(nid)
+            g["nodes"][nid] = (cur, {})
             continue
         m = re.match(r"^([A-Za-z_][A-Za-z_0-9]*)\s*=\s*(.*);$", ln)
         if m:
